@@ -57,6 +57,20 @@ KINDS = {
 }
 
 
+def make_engine_via_collection(kind, flavour="plain"):
+    """The package's own factories (engine_collection.euler_engine() ...), pointed at the freshly built library instead of the
+    shipped binary: what a user gets, option names, flags and object identity included."""
+    util.ensure_repo_importable()
+    from strengths import engine_collection
+    path = build_engine(flavour)
+    saved = engine_collection._get_engine_path
+    engine_collection._get_engine_path = lambda: path
+    try:
+        return getattr(engine_collection, kind + "_engine")()
+    finally:
+        engine_collection._get_engine_path = saved
+
+
 def make_engine(kind, flavour="plain", lib=None):
     """Same construction as engine_collection.*_engine(), but on the freshly built library."""
     util.ensure_repo_importable()
